@@ -10,7 +10,7 @@ def run(p):
     except Exception as e:
         return p, f"(failed to run: {e})"
     out = pr.stdout + pr.stderr
-    if "Modules were successfully checked" not in out:
+    if "CONTEXT SUMMARY" not in out or pr.returncode != 0:
         return p, f"(not checked, rc={pr.returncode}) {out[-300:]!r}"
     def sect(name):
         m = re.search(name + r":\s*(.*?)(?=\n\* |\Z)", out, re.S)
